@@ -78,7 +78,8 @@ StrUpr(m, s) == R(s, Put(m, s, MapSeq(Str(m, s), Upper)))
 \* strdup / strndup: the content of the new block (with terminator)
 StrDup(m, s) == R(WithNul(Str(m, s)), m)
 StrNDup(m, s, n) == R(WithNul(Bytes(m, s, Min(StrLen(m, s), n))), m)
-\* strtok_r called until it returns NULL: offsets of the tokens and the arena afterwards
+\* strtok_r called until it returns NULL and then twice more ("subsequent searches return a null pointer"):
+\* offsets of the tokens, -1 for each of the three NULLs, and the arena afterwards
 RECURSIVE Tokens(_, _, _, _)
 Tokens(m, pos, delim, acc) ==       \* pos: offset where scanning resumes
    LET s == Str(m, pos)
@@ -90,6 +91,7 @@ Tokens(m, pos, delim, acc) ==       \* pos: offset where scanning resumes
       ELSE IF tl = Len(rest) THEN R(Append(acc, start), m)
       ELSE Tokens(Put(m, start + tl, <<0>>), start + tl + 1, delim, Append(acc, start))
 StrTok(m, s, d) == Tokens(m, s, Str(m, d), <<>>)
+StrTokCalls(m, s, d) == LET r == StrTok(m, s, d) IN R(r.ret \o <<-1, -1, -1>>, r.mem)
 
 Def(fn, m, a, b, n) ==
    CASE fn = "memcpy" -> MemCpy(m, a, b, n)     [] fn = "memmove" -> MemMove(m, a, b, n)
@@ -107,5 +109,5 @@ Def(fn, m, a, b, n) ==
      [] fn = "strcspn" -> StrCSpn(m, a, b)       [] fn = "strpbrk" -> StrPBrk(m, a, b)
      [] fn = "strlwr" -> StrLwr(m, a)            [] fn = "strupr" -> StrUpr(m, a)
      [] fn = "strdup" -> StrDup(m, a)            [] fn = "strndup" -> StrNDup(m, a, n)
-     [] fn \in {"strtok_r", "strtok"} -> StrTok(m, a, b)
+     [] fn \in {"strtok_r", "strtok"} -> StrTokCalls(m, a, b)
 =============================================================================
